@@ -65,7 +65,10 @@ class Check:
             return ('prop', mons[0][0], mons[0][1])
         if any(l.startswith('CRASH') or l.startswith('LEAK') or 'MISALIGNED' in l or 'BADFREE' in l for l in ctr):
             bad = [l for l in ctr if l.startswith('CRASH') or l.startswith('LEAK') or 'MISALIGNED' in l or 'BADFREE' in l][0]
-            return ('prop', 'implementation: ' + bad, None)
+            # "CRASH signal 6 <sanitizer error kind> <function>": the signature a known finding is matched by
+            t = bad.split()
+            sig = 'crash:' + ':'.join(t[3:5]) if bad.startswith('CRASH') and len(t) >= 5 else None
+            return ('prop', 'implementation: ' + bad, sig)
         if ctr == mtr: return ('ok', '', None)
         if self.project(header, ctr) != self.project(header, mtr):
             pc, pm = self.project(header, ctr), self.project(header, mtr)
@@ -184,6 +187,13 @@ class Check:
                 more = self.cases(tier, seed + 1000 * extra, ctx)
                 cases += [('x%d_%s' % (extra, c[0]), c[1], c[2]) for c in more]
         c, m = self.run_both(cases, ctx, 'main')
+        # a case killed by the harness watchdog (SIGALRM) or lost with its shard on an overloaded machine is run again, alone, before it is judged
+        again = [cs for cs in cases if c.get(cs[0]) is None or any(l.startswith('CRASH signal 14') for l in c.get(cs[0]))]
+        if again and len(again) <= 500:
+            c2 = run_sharded(ctx['cexe'], again, os.path.join(OUT, self.pid), 'retry_c', nshards=2, args=ctx.get('cargs', ()))
+            for cs in again:
+                if c2.get(cs[0]) is not None: c[cs[0]] = c2[cs[0]]
+            ctx.setdefault('cov_extra', {})['rerun_after_watchdog'] = len(again)
 
         # 5. classify
         known = [k for k in load_known() if k.get('property') == self.pid and k['kind'] == 'known']
